@@ -1,0 +1,7 @@
+//go:build !verif
+
+package csproto
+
+func verifPoint(string) {}
+
+func verifCopy(*Encoder, int) {}
